@@ -96,8 +96,9 @@ def first_reply(addr, kind, name, wire_opts, patience=0.4):
         s.close()
 
 
-def measured_download(addr, name, opts, grace=0.08):
-    """returns (oack dict|None, bursts [[(blk,len)]], data, completed, note)"""
+def measured_download(addr, name, opts, grace=0.08, first_wins=False):
+    """returns (oack dict|None, bursts [[(blk,len)]], data, completed, note); an option the OACK lists more than once is
+    read as its last (first_wins: first) occurrence"""
     s = N._sock(timeout=1.5)
     tr = N.Transfer()
     try:
@@ -109,7 +110,7 @@ def measured_download(addr, name, opts, grace=0.08):
         b, w, oack = 512, 1, None
         pending = None
         if k == "OACK":
-            oack = dict(f["options"])
+            oack = dict(reversed(f["options"])) if first_wins else dict(f["options"])
             b, w = int(oack.get("blksize", 512)), int(oack.get("windowsize", 1))
             s.sendto(N.enc_ack(0), peer)
         else:
@@ -344,6 +345,34 @@ def run(tier):
                             break
                     distinct.add((cfg, "transfer", c))
                     classes["transfer-measured"] = classes.get("transfer-measured", 0) + 1
+            # a request that repeats an option with different values: the transfer must be consistent with one reading of
+            # the OACK (last occurrence, else first occurrence)
+            write(os.path.join(sb["srv"], "rep.bin"), N.keyed_content("rep.bin", 6000))
+            for opts in ([("blksize", 1024), ("blksize", 512)], [("blksize", 512), ("windowsize", 2), ("BLKSIZE", 1024)],
+                         [("windowsize", 4), ("windowsize", 2)], [("windowsize", 1), ("blksize", 600), ("WindowSize", 3)]):
+                evaluations += 1
+                readings = []
+                # an inconsistent outcome is believed only if it repeats on three serial attempts (a stalled machine also
+                # produces short bursts)
+                for attempt in range(3):
+                    for first_wins in (False, True):
+                        oack, bursts, data, completed, note = measured_download(srv.addr, "rep.bin", opts, first_wins=first_wins)
+                        eb = int(oack["blksize"]) if oack and "blksize" in oack else 512
+                        ew = int(oack["windowsize"]) if oack and "windowsize" in oack else 1
+                        flat = [x for bu in bursts for x in bu]
+                        ok = (completed and data == N.keyed_content("rep.bin", 6000) and all(ln == eb for _, ln in flat[:-1]) and flat[-1][1] < eb
+                              and all(len(bu) == min(ew, 6000 // eb + 1 - j * ew) for j, bu in enumerate(bursts)))
+                        readings.append({"oack": oack, "first_occurrence_wins": first_wins, "consistent": ok, "note": note, "bursts": bursts[:3]})
+                        if ok:
+                            break
+                    if readings[-1]["consistent"]:
+                        break
+                if not any(r["consistent"] for r in readings):
+                    v.violation("C09/transfer/repeated-option", f"{cfg}: RRQ with {opts}: the transfer matches neither reading of the OACK {readings[0]['oack']} ({readings[0]['note']})",
+                                {"engine": "net", "config": cfg, "options": opts, "readings": readings})
+                else:
+                    distinct.add((cfg, "repeated", tuple(opts)))
+                    classes["repeated-option-transfer"] = classes.get("repeated-option-transfer", 0) + 1
             # uploads: ACK pattern follows the acknowledged windowsize / blksize
             for (b, w, fl) in [(8, 1, 20), (512, 2, 2000), (512, 3, 512 * 3), (1428, 4, 10000), (None, None, 1300), (8, 5, 8 * 5 + 3)]:
                 evaluations += 1
